@@ -27,8 +27,10 @@ TEXT.update({
            "Kani/CBMC bounded model checking + MIR symbolic execution with z3 (bounded runs and inductive step)"),
  "C06": _t("Differential symbolic execution: the real Name::parse MIR and an RFC 1035 4.1.4 reference decoder are executed on the "
            "same fully symbolic buffer and start offset; z3 is asked for any input on which accept/reject, any label range or the "
-           "resume position differ. Exhaustive over all 256^L buffers for each length up to the bound.",
-           "DESIGN.md section 3 C06",
+           "resume position differ. Exhaustive over all 256^L buffers for each length up to the bound, plus boundary layouts (63/64-byte labels, "
+           "254-256 octet names, a fully symbolic length octet), an inductive loop contract for any length, and - at packet level - names inside the "
+           "RDATA of all 23 name-bearing types given as message-relative pointers.",
+           "DESIGN.md section 3 C06 and 8.2",
            "Trusted: rustc MIR dump, the mirsym interpreter and std models, z3, the reference decoder. Paths hitting the loop bound are outside the claim.",
            "MIR symbolic execution + z3, differential against an RFC reference decoder"),
  "C09": _t("Kani/CBMC over all TTL words, versions and named rcodes for the EDNS TTL packing (encode, decode, OPT::parse fixed part) against "
